@@ -95,12 +95,17 @@ def run_shrink(mod, args):
         json.dump(got, f)
 
 
-def replay_case(mod, viol):
-    """Re-execute one stored case without Hypothesis -> list of violation dicts"""
+def replay_case(mod, viol, with_prev=None):
+    """Re-execute one stored case without Hypothesis -> list of violation dicts.  A replay marked "sequence" is the
+    two-step history (prev, case): the previous case is executed first (state leaking between calls is the defect)."""
     from vlib import core
     t = mod.TESTS[viol["test"]]
     case = core.dec(viol["case"])
     fn = t.get("replay") or t["check"]
+    if with_prev is None:
+        with_prev = bool(viol.get("sequence"))
+    if with_prev and viol.get("prev") is not None:
+        core.run_check(fn, core.dec(viol["prev"]))
     res = core.run_check(fn, case)
     out = []
     for clause, detail, tags in res.violations:
@@ -300,13 +305,31 @@ def main():
             except Exception:
                 traceback.print_exc()
                 harness_fail("re-execution of a failing case raised in the harness")
+            sequence = False
             if not any(v["clause"] == best["clause"] for v in again):
-                print("note: bucket %s did not reproduce on plain re-execution: %s" % (b, best["detail"]))
                 reproduced = False
+                # does it reproduce as the two-step history (previous case, this case)?
+                for cand in lst:
+                    if cand.get("prev") is None:
+                        continue
+                    try:
+                        again = replay_case(mod, cand, with_prev=True)
+                    except Exception:
+                        traceback.print_exc()
+                        harness_fail("re-execution of a failing history raised in the harness")
+                    if any(v["clause"] == cand["clause"] for v in again):
+                        best = dict(cand, sequence=True)
+                        reproduced = sequence = True
+                        print("note: bucket %s reproduces only as a two-call history (state carried between calls)" % b)
+                        break
+                if not reproduced:
+                    print("note: bucket %s did not reproduce on plain re-execution: %s" % (b, best["detail"]))
             else:
                 reproduced = True
+            if not sequence:
+                best = {k: v for k, v in best.items() if k != "prev"}
             shrunk = None
-            if reproduced and not args.no_shrink and os.environ.get("VERIF_NO_SHRINK") != "1":
+            if reproduced and not sequence and not args.no_shrink and os.environ.get("VERIF_NO_SHRINK") != "1":
                 sf = os.path.join(tmp, "shrunk.json")
                 if os.path.exists(sf):
                     os.remove(sf)
